@@ -3,8 +3,8 @@
   their conclusions are observable on it (evaluated by the kernel).
 -/
 import FcProofs.Props.C04
-namespace Fc
-open Fc.Cli
+namespace Fc.C04
+open Fc
 
 /-- what `float()` answers for the literals used below: 1e-3 ≈ 2^-10, 0.5 = 2^-1 (powers of two so
     that the boundary cases are exact) -/
@@ -53,4 +53,4 @@ example : classifyTok "n:0.5" = .named "n" "0.5" ∧ "n" ≠ removeAnnotation "x
 -- annotation is removed before the lookup
 example : removeAnnotation "c0 @ QUAD" = "c0" ∧ removeAnnotation "a @ b @ TRIANGLE" = "a @ b" := by decide
 
-end Fc
+end Fc.C04
